@@ -428,6 +428,35 @@ class Facts:
         self.eng = eng
         self.tab = {}
         self.by_slice = {}
+        self.strips = []
+
+    @staticmethod
+    def strippable(chars):
+        if chars is None:
+            return None  # whitespace: decided per code point with str.isspace
+        return {ord(c) for c in chars}
+
+    def solid_vs_strip(self, p, rs, lo, hi, L, R, chars):
+        """a character at position p whose class `rs` contains no strippable character stops both strips."""
+        st = self.strippable(chars)
+        for a, b in rs:
+            if st is None:
+                if b - a > 5000 or any(chr(cp).isspace() for cp in range(a, b + 1)):
+                    return
+            elif any(a <= cp <= b for cp in st):
+                return
+        self.eng.add(z3.Implies(z3.And(lo <= p, p < hi), z3.And(L <= p - lo, R <= hi - 1 - p)))
+
+    def add_solid(self, p, rs):
+        """register: the character at position p of the base text belongs to the code-point ranges rs."""
+        solids = self.eng.path_state.setdefault("solid", [])
+        for p2, rs2 in solids:
+            # one position cannot hold characters of two disjoint classes
+            if not any(a <= d and c <= b for a, b in rs for c, d in rs2):
+                self.eng.add(p != p2)
+        solids.append((p, rs))
+        for lo, hi, L, R, chars in self.strips:
+            self.solid_vs_strip(p, rs, lo, hi, L, R, chars)
 
     def _fact(self, t, kind, lit):
         k = (t.key(), kind, lit)
@@ -487,6 +516,9 @@ class Facts:
             # L = len iff every character is strippable iff R = len
             self.eng.add(L >= 0, R >= 0, L <= ln, R <= ln, (L == ln) == (R == ln))
             self.tab[k] = (L, R)
+            self.strips.append((lo, hi, L, R, chars))
+            for p, rs in self.eng.path_state.get("solid", ()):
+                self.solid_vs_strip(p, rs, lo, hi, L, R, chars)
         L, R = self.tab[k]
         ln = hi - lo
         a = L if left else z3.IntVal(0)
@@ -700,6 +732,11 @@ class Engine:
         else:
             e = prop.e if isinstance(prop, SBool) else prop
         r = self._check(z3.Not(e))
+        if r == z3.unknown:
+            # one retry with a generous budget before giving up (a loaded machine must not turn into "unknown")
+            self.solver.set("timeout", max(self.timeout_ms * 12, 120000))
+            r = self._check(z3.Not(e))
+            self.solver.set("timeout", self.timeout_ms)
         if r == z3.unsat:
             return "valid", None
         if r == z3.sat:
